@@ -19,7 +19,7 @@ RULE = ("rotations incl. angles within 1e-9 of 0 and pi on every axis (all three
         "rotation; embeddings SO2->SE2, SO3->SE3, SE2->SE3 as homomorphisms preserving the action on points; expression "
         "trees evaluated independently per representation. Non-trivial: angle within 1e-6 of 0 or pi, or |t|>1e3, or axis "
         "length outside [0.5,2], or tree depth>=2.")
-RULE = RULE + probes.RULE_TEXT + (probes.AUG_TEXT if PROPERTY_ID in probes.AUG_PROPS else "") + probes.VARIANT_TEXT + probes.OWN_TEXT
+RULE = RULE + probes.RULE_TEXT + (probes.AUG_TEXT if PROPERTY_ID in probes.AUG_PROPS else "") + probes.VARIANT_TEXT + probes.OWN_TEXT + probes.EXTRA_RULES.get(PROPERTY_ID, "")
 ASSUMPTIONS = ["all values compared as matrices to 1e-6 relative to max(1,|t|); quaternions through the reference q2r (sign-free)",
                "UnitDualQuaternion has no inverse method: only products and round trips are checked for it"]
 
